@@ -114,17 +114,30 @@ def run_config(ctx, I, inp, cases=None, verbose=False):
     if not kw["lossless"]:
         kw["picture_bytes"] = inp["config"]["picture_bytes"] = enough_picture_bytes(P, profile, tcs)
         cf = common.make_codec_features(**kw)
-    seq = encoder.make_sequence(cf, pics, minimum_slice_size_scaler=mins)
+    kind = "lossless" if kw["lossless"] else "lossy-q0"
+    try:
+        seq = encoder.make_sequence(cf, pics, minimum_slice_size_scaler=mins)
+    except Exception as e:
+        from vc2_conformance.encoder.exceptions import UnsatisfiableCodecFeaturesError
+        if isinstance(e, UnsatisfiableCodecFeaturesError) and not kw["lossless"]:
+            return "skipped-insufficient"
+        ctx.violation(kind + "-encoder-raises:" + type(e).__name__, inp, "make_sequence raises %r" % (e,))
+        return "encoder-raises"
     coded = H14.get_pictures(seq, profile)
     qs = [sl["qindex"] for (sls, _) in coded for sl in sls]
     if any(q != 0 for q in qs):
         return "skipped-qindex-nonzero"  # outside the property's hypothesis
-    data = common.serialise([seq])
+    try:
+        data = common.serialise([seq])
+    except Exception as e:
+        ctx.violation(kind + "-encoder-output-not-serialisable:" + type(e).__name__, inp, "serialising the encoder's output raises %r" % (e,))
+        if verbose:
+            print("serialising raised", repr(e))
+        return "serialise-raises"
     with Capture(S, "picture_decode", grab_decoder) as dcap:
         verdict, exc, out, _ = common.validate(data)
     if verbose:
         print("config", {k: v for k, v in inp["config"].items()}, "verdict", verdict, "pictures", len(out))
-    kind = "lossless" if kw["lossless"] else "lossy-q0"
     if verdict != "accept":
         ctx.violation(kind + "-stream-rejected:" + verdict, inp, "validator says %s: %r" % (verdict, exc))
         return "rejected"
@@ -201,6 +214,32 @@ def corr_dc(ctx, I):
         ctx.obligation("corr:dc prediction agrees with the model", False, "corr-shard", "differ at band %r" % (meta[i],))
 
 
+def corr_lossless_synthetic(ctx, I, cases):
+    """the lossless packer on slices whose sizes sit at the slice_size_scaler thresholds (255*m bytes)"""
+    encoder, P, T, S, WF, CDF = I
+    rng = ctx.rng
+
+    def comp():
+        if rng.random() < 0.3:
+            return ([0] * rng.randint(0, 3), [0] * 3)
+        nbytes = 255 * rng.choice([1, 1, 2, 3, 5]) + rng.choice([-1, 0, 0, 1])
+        bits = 8 * nbytes + rng.choice([0, 0, -2, 2, -6])
+        vals = [rng.choice([1, -1]) * (1 << ((bits - 2) // 2))] + [0] * rng.randint(0, 2)
+        return (vals, [0] * len(vals))
+    for _ in range(ctx.pick(40, 400)):
+        tc = [[(comp(), comp(), comp()) for _ in range(rng.choice([1, 2]))] for _ in range(rng.choice([1, 2]))]
+        mins = rng.choice([1, 1, 1, 2, 4])
+        s, td = P.make_transform_data_hq_lossless(H14.real_tc(P, tc), mins)
+        for k, sl in enumerate(td["hq_slices"]):
+            for name, t in (("slice_y_length", "y_transform"), ("slice_c1_length", "c1_transform"), ("slice_c2_length", "c2_transform")):
+                if not (0 <= sl[name] <= 255) or 8 * s * sl[name] < P.calculate_coeffs_bits(list(sl[t])):
+                    ctx.violation("lossless-packer-length-field", {"coeffs": tc, "minimum_slice_size_scaler": mins},
+                                  "%s = %d with slice_size_scaler %d for %d bits of coefficients (8-bit field)" % (
+                                      name, sl[name], s, P.calculate_coeffs_bits(list(sl[t]))), observed=sl[name])
+        cases["lossless"].append("(%s, %s, (%s, [%s]))" % (H14.rows_lit(tc), cz(mins), cz(s), "; ".join(H14.slice_obs_lit(*o) for o in H14.hq_obs(td))))
+        ctx.count(1, key=("lossless-synth", repr(tc), mins), bucket="corr-lossless-synthetic-scaler%d" % min(s, 4))
+
+
 def run(ctx):
     I = impl()
     rng = ctx.rng
@@ -225,6 +264,7 @@ def run(ctx):
         ctx.count(1, key=("cfg", repr(inp)) if inp["picture_kind"] in ("noise", "extremes", "ramp") else None, bucket="stack-" + b)
         if i < 2:
             ctx.sample(inp)
+    corr_lossless_synthetic(ctx, I, cases)
     imports = ["Base.PyZ", "Model.EncoderSlices", "Corr.C04"]
     for name, chk, shard in (("gather", "check_gather", 6), ("lossless", "check_hq_lossless", 6), ("scatter", "check_scatter", 6)):
         bad = ctx.coq_check_cases(name, imports, chk, cases[name], shard=shard)
@@ -232,6 +272,7 @@ def run(ctx):
         for k in (bad or []):
             ctx.obligation("corr:%s agrees with the model" % name, False, "corr-shard",
                            "differ at %r" % (cases["meta"][k] if name != "lossless" else cases[name][k][:300],))
+    
     ctx.trusted.append("Gen/Quant.v, Gen/ExpGolombLen.v, Gen/SliceSizes.v, Gen/VC2Math.v regenerated from /repo by the translator on this run")
     ctx.trusted.append("wavelet transform round trip (C11), picture offset/clip and the byte-level container around slices are covered here only by the "
                        "end-to-end oracle (encoder -> validator), not by the C04 theorems")
@@ -242,7 +283,15 @@ def replay(ctx, data):
     inp = data["input"]
     print("replaying", data.get("key"))
     before = len(ctx.violations)
-    if "band" in inp:
+    if "coeffs" in inp:
+        P = I[1]
+        tc = [[tuple((list(c[0]), list(c[1])) for c in sc) for sc in row] for row in inp["coeffs"]]
+        sc, td = P.make_transform_data_hq_lossless(H14.real_tc(P, tc), inp["minimum_slice_size_scaler"])
+        lens = [[sl[n] for n in ("slice_y_length", "slice_c1_length", "slice_c2_length")] for sl in td["hq_slices"]]
+        need = [[P.calculate_coeffs_bits(list(sl[t])) for t in ("y_transform", "c1_transform", "c2_transform")] for sl in td["hq_slices"]]
+        print("slice_size_scaler", sc, "length fields", lens, "bits needed", need)
+        bad = any(not (0 <= l <= 255) or 8 * sc * l < b for ls, bs_ in zip(lens, need) for l, b in zip(ls, bs_))
+    elif "band" in inp:
         encoder, P, T = I[0], I[1], I[2]
         b = deepcopy(inp["band"])
         P.apply_dc_prediction(b)
